@@ -11,6 +11,7 @@ _UNIT_MODULES = [
     "units.u_charcount.unit",
     "units.u_symbols.unit",
     "units.u_collect.unit",
+    "units.u_listing.unit",
     "units.u_rulemap.unit",
     "units.u_literal.unit",
     "units.u_format.unit",
@@ -31,7 +32,7 @@ REPORT_TB = ["diagn::Report contracts (units/contracts_report.py: error*/warning
 RESOLVER_TB = ["ASSUMED contracts of unverified customasm code used by U-resolver/U-iterate: asm::resolver::eval / eval_certain ('Err is loud, Ok is clean'), resolve_constant / resolve_instruction (the per-item pass contract), ResolveIterator::new/next (flags copied; the yielded node refers to defined items), Value::expect_error_or_bigint / expect_bool, DefList::get_mut (frame), derived PartialEq of expr::Value",
                "ghost event `ItemDefs::confirmed()` is produced only by resolve_once's stub clause [confirms] (a name for 'a no-guess pass answered Resolved'); termination of resolve_once's loop is not proved"]
 
-ALL_UNITS = ["U-overlap", "U-bigint", "U-constrain", "U-resolver", "U-iterate", "U-bitvec", "U-output", "U-charcount", "U-symbols", "U-rulemap", "U-literal", "U-format", "U-inspect", "U-report", "U-limits", "U-cursor", "U-collect"]
+ALL_UNITS = ["U-overlap", "U-bigint", "U-constrain", "U-resolver", "U-iterate", "U-bitvec", "U-output", "U-charcount", "U-symbols", "U-rulemap", "U-literal", "U-format", "U-inspect", "U-report", "U-limits", "U-cursor", "U-collect", "U-listing"]
 
 PROPERTIES = {
     "C01": {
@@ -59,9 +60,9 @@ PROPERTIES = {
         "trusted_base": NUMBIGINT_TB,
     },
     "C12": {
-        "units": ["U-bitvec"],
-        "claim": "BitVec::write_bigint_with_span / mark_span append exactly one span record (offset, size, address, source span) per emitted item, and for written items the bits at [offset, offset+size) are the item's value MSB-first.",
-        "not_reached": "the listing and symbol-table text (format_annotated, format_tcgame, format_addrspan, symbol_format): String/format! code; ordering of rows (sort_by)",
+        "units": ["U-bitvec", "U-listing"],
+        "claim": "BitVec::write_bigint_with_span / mark_span append exactly one span record (offset, size, address, source span) per emitted item, and for written items the bits at [offset, offset+size) are the item's value MSB-first. The three listings: the whole text of format_addrspan, format_annotated and format_tcgame equals a spec function of the recorded spans sorted by output offset (sort_by is an assumed sort: a permutation ordered by offset, items without an output position first): one row per recorded span, in that order; each row names the output position (offset / group bits : offset % group bits, or dashes), the logical address, and - for the two data listings - the digits of THAT item's own bits (digit k = bits [k*w, (k+1)*w) of the item, MSB first, positions beyond the item's size zero; fixed D22) and the source excerpt at the span's byte range of the span's file; for the address-span listing the file name and the line/column of both ends. Column widths are the maxima over the listed spans. The text of each format! call and the results of CharCounter (excerpt, line/column: proved in U-charcount) are uninterpreted functions of their arguments.",
+        "not_reached": "the symbol-table formats (symbol_format.rs: FnMut formatter closures, HashMap iteration, sort_by_key; D12 Mesen offset underflow is described only); that the recorded spans satisfy span_listable (items without output position have size 0, real source spans, byte ranges on character boundaries) is a stated precondition established by build_output but not checked at the driver's call; how std renders a number",
         "trusted_base": NUMBIGINT_TB,
     },
     "C13": {
